@@ -440,13 +440,13 @@ def runWireCase (ws : List String) (impl : String) : String :=
     -- prepared goes through execute_raw_with_consistency; `batch`: prepare_batch has nothing to prepare (the
     -- unprepared statement has no values / the CachingSession prepared it before); `batchv`: one PREPARE per attempt;
     -- the pagers: `execute_iter` pages with EXECUTE, `query_iter` (no values) with QUERY
-    let k : Option StmtKind := if kind == "exec" || kind == "itere" then some .execute
+    let k : Option StmtKind := if kind == "exec" || kind == "itere" || kind == "ctl" then some .execute
       else if kind == "query" then (if via == "caching" then some .execute else some .query)
       else if kind == "iterq" then some .query
       else if kind == "qvals" then some .queryValues
       else if kind == "batch" then some (.batch 0)
       else if kind == "batchv" then some (.batch 1) else none
-    let pages : Option Nat := if kind == "itere" || kind == "iterq" then some (((kvOf ws "pages").bind String.toNat?).getD 3) else none
+    let pages : Option Nat := if kind == "itere" || kind == "iterq" || kind == "ctl" then some (((kvOf ws "pages").bind String.toNat?).getD 3) else none
     let cfg := (kvOf ws "cfg").getD "stmt"
     let tmo : Option Nat := match (kvOf ws "tmo").bind String.toNat? with | some 0 => none | t => t
     let tmoProfile := (kvOf ws "tmoat").getD "stmt" == "profile"
@@ -471,9 +471,14 @@ def runWireCase (ws : List String) (impl : String) : String :=
         if cfg == "handle" then some real else if cfg == "both" then some ⟨.two, .fallthrough, none⟩ else none
       let stmt : StmtCfg := ⟨idem != 0, if onStmt then clSet else none, if onStmt then some p else none,
         if tmoProfile then none else tmo, stmtProfile⟩
-      let ex := if pages.isSome then pagingExecutorNew stmt sessionDefault else sessionParams stmt sessionDefault
+      -- `idems=0110…`: the idempotence flag of every single request (same text, different callers' flags)
+      let idems : Option (List Bool) := (kvOf ws "idems").map (fun t => t.toList.map (· == '1'))
       "retry " ++ " ".intercalate (scs.zipIdx.map (fun (sc, i) =>
-        wireRequest ex n k pages (via == "session") sc.1 sc.2 (implToks.getD i "")))
+        let stmt := { stmt with idem := match idems with | some fl => fl.getD i stmt.idem | none => stmt.idem }
+        -- the single-connection pager: hard-coded fall-through policy, one connection
+        let ex := if kind == "ctl" then singleConnectionPagerParams stmt.idem (clSet.getD .localQuorum) none
+          else if pages.isSome then pagingExecutorNew stmt sessionDefault else sessionParams stmt sessionDefault
+        wireRequest ex (if kind == "ctl" then 1 else n) k pages (via == "session") sc.1 sc.2 (implToks.getD i "")))
     | _, _, _, _, _, _ => "bad-case"
   | _, _, _, _, _, _, _ => "bad-case"
 
